@@ -62,9 +62,35 @@ func c13SameNameCase(r *rng.R) *PCase {
 	return pc
 }
 
+// c13ExternalOnlyCase: every token is declared @external (the user brings
+// their own lexer): the lexer half of the output has nothing to recognise,
+// and must still be the same bytes whatever the directory held before.
+func c13ExternalOnlyCase(r *rng.R) *PCase {
+	base := c13SameNameCase(r)
+	g := base.G
+	var names []string
+	for _, t := range g.Tokens {
+		names = append(names, t.Name)
+	}
+	g.CustomLexer = "@lexer\n@external " + strings.Join(names, " ")
+	if r.Chance(1, 2) {
+		g.CustomLexer = "@lexer"
+		for _, n := range names {
+			g.CustomLexer += "\n@external " + n
+		}
+	}
+	pc := &PCase{G: g, Origin: "all-tokens-external"}
+	pc.C = g.Desugar(false)
+	pc.prepare()
+	return pc
+}
+
 func c13Draw(d *caseDrawer, r *rng.R) *PCase {
 	if r.Chance(1, 6) {
 		return c13SameNameCase(r)
+	}
+	if r.Chance(1, 6) {
+		return c13ExternalOnlyCase(r)
 	}
 	if r.Chance(1, 2) {
 		cc := drawC19(r)
@@ -163,6 +189,13 @@ func checkC13(c *Ctx) error {
 	var cases []*PCase
 	for len(cases) < nCLI {
 		pc := c13Draw(d, r)
+		switch len(cases) {
+		case 3:
+			// the special families are part of every run, whatever the draw
+			pc = c13ExternalOnlyCase(r)
+		case 6:
+			pc = c13SameNameCase(r)
+		}
 		if pc == nil {
 			break
 		}
@@ -176,15 +209,24 @@ func checkC13(c *Ctx) error {
 	}
 	defer b.Remove()
 	_ = root
+	// goPrefix: the user's Go files are called harness.go / internals.go, or,
+	// for every other specification, a_harness.go / a_internals.go, so that
+	// they sort before the generated files (whatever the generator does with
+	// "the first" or "the last" Go file of the directory then meets a
+	// generated file instead of a user file).
+	goPrefix := map[*PCase]string{}
 	writePkg := func(name string, pc *PCase, extra map[string]string) string {
 		dir := filepath.Join(b.Dir, name)
 		os.MkdirAll(dir, 0o755)
 		pkg := name
 		for fn, src := range pc.Files {
+			if strings.HasSuffix(fn, ".go") {
+				fn = goPrefix[pc] + fn
+			}
 			os.WriteFile(filepath.Join(dir, fn), []byte(strings.ReplaceAll(src, "package PKGNAME", "package "+pkg)), 0o644)
 		}
 		if pc.Stub != "" {
-			os.WriteFile(filepath.Join(dir, "internals.go"), []byte(strings.ReplaceAll(pc.Stub, "package PKGNAME", "package "+pkg)), 0o644)
+			os.WriteFile(filepath.Join(dir, goPrefix[pc]+"internals.go"), []byte(strings.ReplaceAll(pc.Stub, "package PKGNAME", "package "+pkg)), 0o644)
 		}
 		for fn, src := range extra {
 			os.WriteFile(filepath.Join(dir, fn), []byte(src), 0o644)
@@ -196,6 +238,11 @@ func checkC13(c *Ctx) error {
 		return &genOut{exit: exit, report: so, diag: se}
 	}
 	var mu sync.Mutex
+	for i, pc := range cases {
+		if i%2 == 1 {
+			goPrefix[pc] = "a_"
+		}
+	}
 	parallel(len(cases), 3, func(i int) {
 		pc := cases[i]
 		base := fmt.Sprintf("s%03d", i)
@@ -253,6 +300,31 @@ func checkC13(c *Ctx) error {
 			o := runCLI(b.Dir, "--report", base+"e")
 			o.files = readGen(dir)
 			os.RemoveAll(odir)
+			return o
+		})
+		mk("over generated files that carry another package name", func() *genOut {
+			// as left behind when the user renames the package, or copies a
+			// directory: the stale files are generated files like any other
+			other := cases[(i+2)%len(cases)]
+			odir := writePkg(base+"p", other, nil)
+			runCLI(b.Dir, base+"p")
+			stale := readGen(odir)
+			dir := writePkg(base+"g", pc, stale)
+			o := runCLI(b.Dir, "--report", base+"g")
+			o.files = readGen(dir)
+			os.RemoveAll(odir)
+			return o
+		})
+		mk("over a syntactically broken base.gen.go", func() *genOut {
+			dir := writePkg(base+"h", pc, map[string]string{"base.gen.go": "package " + base + "h\n\nconst broken = (\n"})
+			o := runCLI(b.Dir, "--report", base+"h")
+			o.files = readGen(dir)
+			return o
+		})
+		mk("over a syntactically broken lexer.gen.go", func() *genOut {
+			dir := writePkg(base+"k", pc, map[string]string{"lexer.gen.go": "package " + base + "k\n\nvar broken = [\n"})
+			o := runCLI(b.Dir, "--report", base+"k")
+			o.files = readGen(dir)
 			return o
 		})
 		mk("over a syntactically broken parser.gen.go", func() *genOut {
